@@ -23,6 +23,9 @@ structure Attempt where
 structure St where
   now : Int := 0
   len : Int := 0
+  sto : Int := 0
+  lastShare : Int := 0                -- last share of this purchase (the purchase itself counts as one)
+  maxGap : Int := 0                   -- longest silence seen in this purchase
   attempts : List Attempt := []
   closedAt : Option Int := none       -- somebody else closed the contract (event emitted)
   cancelled : Bool := false
@@ -44,8 +47,10 @@ def observed : List Attempt → List Action
 
 def mon (st : St) (op : List String) (outs : List (List String)) : St × List String :=
   let st1 : St := match op with
-    | "start" :: rest => { st with len := parseInt (kvGet rest "len") }
-    | ["advance", s] => { st with now := st.now + parseInt s }
+    | "start" :: rest => { st with len := parseInt (kvGet rest "len"), sto := parseInt (kvGet rest "sto") }
+    | "repurchase" :: rest => { len := parseInt (kvGet rest "len"), sto := st.sto, done := st.done }
+    | ["advance", s] => { st with now := st.now + parseInt s, maxGap := max st.maxGap (st.now + parseInt s - st.lastShare) }
+    | ["share"] => { st with lastShare := st.now }
     | ["closedevent"] => { st with closedAt := some (st.closedAt.getD st.now) }
     | ["cancel"] => { st with cancelled := true }
     | _ => st
@@ -63,6 +68,9 @@ def mon (st : St) (op : List String) (outs : List (List String)) : St × List St
   -- K2: nothing is sent unless the watcher ended with a delivery fault
   let k2 := if !isFault werr ∧ !atts.isEmpty then
       [s!"PROP a close transaction was sent although the validation had not found a fault (watcher: {werr})"] else []
+  -- K0: a share-timeout verdict needs a silence longer than the timeout within this purchase
+  let k0 := if werr = "sharetimeout" ∧ st2.maxGap ≤ st2.sto then
+      [s!"PROP the validation reported a share timeout {st2.now} s into the purchase; the longest silence since the purchase was {st2.maxGap} s, the timeout is {st2.sto} s"] else []
   -- K1: the reason is the verdict's
   let k1 := if isFault werr then (atts.filter (·.reason ≠ expReason)).take 1 |>.map fun a =>
       s!"PROP the contract was closed with reason {a.reason}; the verdict was {werr}, whose reason is {expReason}" else []
@@ -99,7 +107,7 @@ def mon (st : St) (op : List String) (outs : List (List String)) : St × List St
       if st2.now - t ≥ 350 ∧ !st2.cancelled ∧ (after.length > 30 ∨ alive) then
         [s!"PROP the contract was closed by somebody else {st2.now - t} s ago and the controller is still trying to close it: {after.length} close transactions since (alive={alive})"] else []
     | none => []
-  let cs := k2 ++ k1 ++ k3 ++ k6 ++ k4 ++ k5
+  let cs := k0 ++ k2 ++ k1 ++ k3 ++ k6 ++ k4 ++ k5
   ({ st2 with done := !cs.isEmpty }, cs)
 
 def monitor : Monitor := { σ := St, init := {}, step := mon }
